@@ -184,7 +184,7 @@ def main():
     inconclusive = []
     passed = []
     hrep = []
-    replay_dir = os.path.join(core.VERIF, 'replays', pid)
+    replay_dir = os.path.join(core.VERIF, 'replays', pid) if core.REPO == '/repo' else os.path.join(core.VERIF, '.work', 'replays-other', tag, pid)
 
     def replay_and_classify(entry, name, crate, vals, descs, buf_repr, others, role_key, native_name=None, hang=False):
         """native replay of a solver counterexample; returns after filing the entry under violations/known/inconclusive"""
@@ -345,8 +345,12 @@ def main():
         violations=len(violations),
     )
     os.makedirs(os.path.join(core.VERIF, 'evidence'), exist_ok=True)
-    if not args.only:
+    if not args.only and core.REPO == '/repo':
         json.dump(ev, open(os.path.join(core.VERIF, 'evidence', f'{pid}.json'), 'w'), indent=1)
+    elif not args.only:
+        # a run against another checkout (VERIF_REPO: evaluation of a seeded change) never overwrites the evidence of /repo
+        os.makedirs(os.path.join(core.VERIF, '.work', 'evidence-other'), exist_ok=True)
+        json.dump(ev, open(os.path.join(core.VERIF, '.work', 'evidence-other', f'{tag}.json'), 'w'), indent=1)
     else:
         json.dump(ev, open(os.path.join(work, 'evidence-partial.json'), 'w'), indent=1)
     if not args.keep:
